@@ -232,6 +232,6 @@ Qed.
 Theorem Inv_run limit ops : Inv (sst (fst (run ops (init_sys limit)))).
 Proof.
   apply (run_SysP Inv Inv_feed Inv_begin Inv_end Inv_eof Inv_exc Inv_pend Inv_consume_resume Inv_marks
-                  (fun s H _ _ _ => Inv_wt s Waiting H) (fun s H => Inv_wt s NoTask H) Inv_pop Inv_unread).
+                  (fun s H _ _ _ _ => Inv_wt s Waiting H) (fun s H => Inv_wt s NoTask H) Inv_pop Inv_unread).
   split; [apply Inv_init|reflexivity].
 Qed.
